@@ -28,7 +28,11 @@ type Config struct {
 	ReaderMax    int
 	// AppendEnc: the encoding also implements the optional MarshalAppend interface (the library then marshals
 	// straight into its reusable write buffers instead of copying the result of Marshal)
-	AppendEnc  bool
+	AppendEnc bool
+	// RawAPI: the scripted sends and receives use the stream's raw interface (RawWrite + RawFlush, RawRecv) instead
+	// of MsgSend / MsgRecv. Only for worlds with at most one receiver per side and stream (the order of delivery is
+	// then noted after RawRecv returned).
+	RawAPI     bool
 	Points     []string // enabled scheduling points ("*" = all)
 	PointLimit int
 	NoServer   bool // the B end is left to the test (wire-level peer)
@@ -337,6 +341,13 @@ func (w *World) CancelRPC(k int) {
 	}
 }
 
+// rawStream is the raw half of *drpcstream.Stream's interface.
+type rawStream interface {
+	RawWrite(kind drpcwire.Kind, data []byte) error
+	RawFlush() error
+	RawRecv() ([]byte, error)
+}
+
 // streamScript runs the steps of one actor against a stream. side is 'c' (client: sends
 // 'c' payloads, expects 's') or 's'. It returns the handler's return value when a ret /
 // reterr step is reached.
@@ -349,7 +360,15 @@ func (w *World) streamScript(a *Actor, st drpc.Stream, k int, side byte, sub int
 	recvOne := func() error {
 		var b []byte
 		r := w.beginOp(a, "recv", k)
-		err := st.MsgRecv(&b, w.Enc)
+		var err error
+		if rs, ok := st.(rawStream); ok && w.Cfg.RawAPI {
+			b, err = rs.RawRecv()
+			if err == nil {
+				w.noteDelivery(b)
+			}
+		} else {
+			err = st.MsgRecv(&b, w.Enc)
+		}
 		if err == nil {
 			w.checkRecv(k, other, b, r)
 		}
@@ -367,7 +386,14 @@ func (w *World) streamScript(a *Actor, st drpc.Stream, k int, side byte, sub int
 			r.Seq, r.Sub, r.Size = sseq, sub, s.Size
 			r.Side = side
 			sseq++
-			err := st.MsgSend(&p, w.Enc)
+			var err error
+			if rs, ok := st.(rawStream); ok && w.Cfg.RawAPI {
+				if err = rs.RawWrite(drpcwire.KindMessage, p); err == nil && !w.Cfg.ManualFlush {
+					err = rs.RawFlush()
+				}
+			} else {
+				err = st.MsgSend(&p, w.Enc)
+			}
 			r.AcceptedAt = w.outOf(side).Total()
 			w.endOp(r, err)
 			a.logf("send(%d) -> %v", s.Size, err)
